@@ -3,18 +3,18 @@
 import json
 
 P = {
- "C01": ("object store", "object.NewObject/Header/compress/Write/GetObject/readHeader, binary.ReadNullTerminatedString and the hash-object/add/cat-file commands executed from SSA; payload bytes 0..6 (thorough 16) all free, size field every value of 1..5 (7) digits followed by free bytes",
+ "C01": ("object store", "object.NewObject/Header/compress/Write/GetObject/readHeader, binary.ReadNullTerminatedString and the hash-object/add/cat-file commands executed from SSA; payload bytes 0..6 (thorough 48) all free, the object kernels also with SHA-1 as a free function (Ackermann axioms) for payloads of 0..4 (16) bytes, size field every value of 1..10 (18) digits followed by free bytes",
          "payloads longer than the bound (multi-MiB content, compressibility) and the internals of deflate/SHA-1 are outside the claim"),
- "C02": ("commit step", "cmd.writeTreeObject, cmd.commit, the commit/add/branch/config RunE closures and everything they call, from `goit init` on an empty model file system; 1..2 files with free names (depth<=2, components<=1 (2) bytes over a-z0-9 space ( + _ . -) and free contents, free message (tab, newline, printable) of 0..1 (2) bytes, with/without parent and second branch; plus a commit made right after switch / switch -c / branch -r among 1..3 further branches with free case-mixed names of 1 (2) bytes (only the current branch moves, to a commit whose parent is its previous commit); independent Git-format decoders as oracle",
+ "C02": ("commit step", "cmd.writeTreeObject, cmd.commit, the commit/add/branch/config RunE closures and everything they call, from `goit init` on an empty model file system; 1..2 files with free names (depth<=2, components<=1 (2) bytes over a-z0-9 space ( + _ . -) and free contents, free message (tab, newline, printable) of 0..1 (2) bytes, with/without parent and second branch; plus a commit made right after switch / switch -c / branch -r among 1..3 further branches with free case-mixed names of 1 (2) bytes (only the current branch moves, to a commit whose parent is its previous commit); a free user name (1..2 (3) printable bytes incl. '%') and message; independent Git-format decoders as oracle",
          "more files, deeper paths, longer names/messages, histories longer than two commits"),
- "C03": ("connectivity after one command", "every modifying command's RunE from four reachable prefixes (nothing committed / one commit / two commits + second branch / renamed branch), with hostile branch names ('../../HEAD', 'a/b', '..', free 1..2 byte names), ids of commits/trees/blobs/free 39-41 hex digits, reflog positions 0..9; fsck written in the harness with independent decoders",
-         "command sequences longer than prefix + 1; argument strings outside the hostile grammar"),
+ "C03": ("connectivity after one command", "every modifying command's RunE from four reachable prefixes (nothing committed / one commit / two commits + second branch / renamed branch), plus two staged blobs whose real SHA-1 ids share the first byte (same fan-out directory, pair found by search); with hostile branch names ('../../HEAD', 'a/b', '..', free 1..2 byte names), ids of commits/trees/blobs/free 39-41 hex digits, reflog positions 0..9; fsck written in the harness with independent decoders",
+         "command sequences longer than prefix + 2; argument strings outside the hostile grammar"),
  "C04": ("add / rm exactness", "add/rm RunE, cmd.add, Index.Update/DeleteEntry/GetEntry/GetEntriesByDirectory, file.GetFilePathsUnderDirectory, Ignore.IsIncluded; 1..2 tracked files (each untouched/edited/deleted, for rm also replaced by a directory holding an untracked file) + one untracked file; plus add/rm of a tracked path whose parent directory was replaced by an untracked file with free names, one free path argument (file, directory, deleted path, unknown, path through a file)",
          "more than two tracked files, two arguments, invocation from a sub-directory"),
  "C05": ("snapshot read-back", "writeTreeObject -> GetObject -> NewTree/walkTree -> Tree.String and reset --mixed + ls-files -s; 0..2 (3) entries with free names (space included) and 20 free id bytes each",
          "trees not written by Goit (C19), depth > 2"),
- "C06": ("staging-area file and lookups", "Index.write/read/Update/DeleteEntry/GetEntry/IsRegisteredAsDirectory/GetEntriesByDirectory as one step from an ARBITRARY canonical index (0..3 (4) entries, free paths of depth<=2, components<=2 bytes, free ids) with a free query path; inductive: covers histories of any length because every mutator is shown to preserve the invariant",
-         "more entries / longer components than the bound; paths >= 65536 bytes"),
+ "C06": ("staging-area file and lookups", "Index.write/read/Update/DeleteEntry/GetEntry/IsRegisteredAsDirectory/GetEntriesByDirectory as one step from an ARBITRARY canonical index (0..3 (4) entries, free paths of depth<=2, components<=2 bytes, free ids) with a free query path; inductive: covers histories of any length because every mutator is shown to preserve the invariant; plus a file of 170 (2600) entries, i.e. above the 4 KiB (64 KiB) buffers of the standard library, with one free entry whose name may exceed 255 bytes",
+         "more free entries / longer free components than the bound; paths >= 65536 bytes"),
  "C07": ("staged-changes report", "Index.DiffWithTree, object.GetNode, getEntriesFromTree, isCommitNecessary over a pool of 0..2 (3) free paths with free membership in HEAD / index and free 'changed' bits, the HEAD tree produced by the real writer and reader; plus status/commit at the CLI (one or two tracked files staged, removed or re-added with free bytes, a new file; a tracked file replaced by a directory or the reverse and staged again)",
          "pools larger than the bound"),
  "C08": ("reset modes", "reset RunE, resetHead/resetIndex/resetWorkingTree, Reflog.load/GetRecord/Show, Head.Reset, Index.Reset, ReflectToWorkingTree after two commits (the second edits or renames a file, or replaces a file by a directory / a directory by a file) + second branch with a perturbed work tree; journals of 11 (25) entries with one- and two-digit positions; argument = valid position, free digit, free 1..2 (3) byte junk, or a position with free text around it; all three modes",
@@ -23,23 +23,23 @@ P = {
          "more than two tracked files; two arguments"),
  "C10": ("branch / HEAD state machine", "Refs.getBranchPos/AddBranch/RenameBranch/DeleteBranch/UpdateBranchHash/NewRefs as one step from an ARBITRARY sorted set of 0..3 branches with free names over a-zA-Z0-9_.- (inductive), and branch/switch/update-ref/rev-parse/branch --list at the CLI from 1..3 branches (free names over a-zA-Z0-9_.: and space, including 'head'/'Head'; the operand name up to 2 bytes, so ': ' is covered)",
          "interleavings deeper than prefix + 1 are covered only through the inductive kernels"),
- "C11": ("reflog journal", "log.NewRecord/record.String/WriteHEAD -> Reflog.load/GetRecord/Show with 1..2 records, every kind, nil/non-nil ids, free messages of 0..2 (3) bytes over tab/newline/printable, three zone offsets; and commit/switch/switch -c/reset at the CLI after branch -r",
+ "C11": ("reflog journal", "log.NewRecord/record.String/WriteHEAD -> Reflog.load/GetRecord/Show with 1..2 records, every kind, nil/non-nil ids, free messages of 0..2 (3) bytes over tab/newline/printable, three zone offsets; and commit/switch/switch -c/reset at the CLI after branch -r; histories may rename to, create and delete, or switch to a branch literally named HEAD",
          "messages longer than the bound; symbolic non-ASCII"),
  "C12": ("commit metadata round trip", "Sign.String/readSign with the offset a solver variable over all 105 quarter-hour offsets, 10 free decimal digits of unix time, free name and e-mail of the accepted grammar; and `commit` with a symbolic clock at the CLI followed by cat-file/log",
          "names longer than 2 (3) bytes, unix times outside 10 digits, \\r, symbolic non-ASCII"),
- "C13": ("working-tree report", "status RunE, GetFilePathsUnderDirectoryWithIgnore, Ignore.IsIncluded, Index.GetEntry, NewObject with 1..2 tracked files (untouched / rewritten with free bytes / deleted) and an optional untracked file with free names; a tracked file replaced on disk by a directory and the reverse",
+ "C13": ("working-tree report", "status RunE, GetFilePathsUnderDirectoryWithIgnore, Ignore.IsIncluded, Index.GetEntry, NewObject with 1..2 tracked files (untouched / rewritten with free bytes / deleted) and an optional untracked file with free names; a tracked file replaced on disk by a directory and the reverse; a .goitignore ('*.ext' and 'dir/') with ignored, untracked and modified files side by side",
          "timestamps (never read by the code: no ModTime call in the SSA), more files"),
- "C14": ("log", "walkHistory + log RunE over chains of 1..3 (6) commits written by the real commit command, an optional side branch, optional dirty staging area, -n a free 64-bit integer in [-2,100] or absent",
-         "chains longer than the bound (the property asks up to 50)"),
- "C15": ("crash consistency", "18 modifying commands (init, config, add, commit first/second, branch, branch -r, branch -d, switch, switch -c, rm, restore, restore --staged, reset soft/mixed/hard, update-ref) with the crash index a solver variable over every file-system modification of the command (unwinding assertion on the range), followed by fsck and six read-only commands",
+ "C14": ("log", "walkHistory over parent chains of 1..20 (200) commits written into the object store with a free -n, and log RunE over chains of 1..4 (9) commits written by the real commit command, an optional side branch, optional dirty staging area, -n a free 64-bit integer in [-2,100] or absent",
+         "chains longer than the bound; merge commits"),
+ "C15": ("crash consistency", "26 modifying commands / states (init, config, config --global, add file / directory / '.' / a file that became a directory, commit first / second / on another branch, branch, branch -r (current and other branch), branch -d, switch, switch -c, rm file / directory, restore file / directory, restore --staged, reset soft/mixed/hard (also across a directory that must disappear), update-ref) with the crash index a solver variable over every file-system modification of the command (unwinding assertion on the range), followed by fsck and six read-only commands",
          "torn writes inside one write call, durability/fsync ordering, states outside the scenario list"),
- "C16": ("I/O failures", "the same 17 commands with the index of the failing fallible call (open/create/read/readdir/write/mkdir/rename/remove; stat excluded) a solver variable; oracle: exit 1, or exactly the state and output of the failure-free twin run from the same checkpoint; fsck afterwards",
+ "C16": ("I/O failures", "the same 26 commands plus 6 read-only ones (reflog, status, log, ls-files -s, branch --list, cat-file -p) from a state that contains a .goitignore with an excluded file, with the index of the failing fallible call (open/create/first read of a handle incl. os.ReadFile and the zlib header/readdir/write/mkdir/rename/remove; stat excluded) a solver variable; oracle: exit 1, or exactly the state and output of the failure-free twin run from the same checkpoint; fsck afterwards",
          "partial writes, Close errors, more than one fault"),
- "C17": ("ignored paths", "add (file / directory / '.' / '.goit'), status, Ignore.load/IsIncluded, GetFilePathsUnderDirectory(WithIgnore) with free directory names, free extensions, every combination of 'name/' and '*.ext' lines, after the metadata directory has grown; names merely containing '.goit'",
+ "C17": ("ignored paths", "add (file / directory / '.' / '.goit'), status, Ignore.load/IsIncluded, GetFilePathsUnderDirectory(WithIgnore) with free directory names, free extensions, every combination of 'name/' and '*.ext' lines, optionally separated by a blank line, an unexcluded neighbour next to the ignored files, after the metadata directory has grown; names merely containing '.goit'",
          "nested .goit directories, ignore lines other than 'name/' and '*.ext'"),
  "C18": ("no crash, no hang", "all 19 sub-commands x flag combinations x 0..2 arguments (free 1 (2)-byte strings over a-z0-9 space ( + _ . @ { } * [ : -, existing paths, branch names, HEAD@{d}, 39..41 hex digits) from 7 repository states (no repository, fresh, staged only, one commit, empty snapshot committed, renamed branch, no identity); after every mutating command seven follow-up commands (status, log, reflog, branch --list, reset --soft HEAD@{0}, add ., commit) run on the state it left, so refused and half-done commands are covered as producers of states; every Go run-time panic is modelled; loops bounded by unwinding assertions; plus every other harness (a panic anywhere is reported)",
          "cobra's own argv tokenisation and help output; wall-clock time"),
- "C19": ("decoders total", "readHeader, GetObject (arbitrary inflated plaintext, wrong name, non-zlib bytes through an over-approximation of inflate), walkTree/NewTree, NewCommit, readSign, Index.read, Config.load, NewHead, NewRefs/ReadHash, Reflog.load/Show on free byte strings of 0..5 (7..12) bytes and on valid prefixes followed by free bytes, plus every single-byte substitution, deletion and truncation of valid files; a staging-area file that loads must decode faithfully (re-encoded entries = bytes of the file)",
+ "C19": ("decoders total", "readHeader, GetObject (arbitrary inflated plaintext, wrong name, non-zlib bytes through an over-approximation of inflate), walkTree/NewTree, NewCommit, readSign, Index.read, Config.load, NewHead, NewRefs/ReadHash, Reflog.load/Show on free byte strings of 0..5 (7..12) bytes and on valid prefixes followed by free bytes, plus every single-byte substitution, deletion and truncation of valid files; a staging-area file that loads must decode faithfully (re-encoded entries = bytes of the file); a tree payload that is accepted must decode faithfully (independent reference decoder)",
          "longer inputs; bit-level corruption of the compressed stream is seen only through the over-approximation"),
  "C20": ("configuration", "Config.Add/Write/load/NewConfig for 1..2 (3) free (section,key,value) triples (values printable with inner single spaces, '=' '[' ']' '#' included) under every explored map iteration order, all 16 local/global combinations, and config/commit at the CLI",
          "values with tabs or leading/trailing blanks, non-ASCII"),
